@@ -32,10 +32,10 @@ def _frames(framing, unit, other, tid, v):
     tidb = bytes([tid // 256, tid % 256])
     st = (tid + 65536 - 2) % 65536
     return {
-        "full": adu.ref_adu(framing, bytes([3, 2, v[0], v[1]]), unit, tidb),
-        "exception": adu.ref_adu(framing, bytes([0x83, 2]), unit, tidb),
-        "other-unit": adu.ref_adu(framing, bytes([3, 2, v[0], v[1]]), other, tidb),
-        "stale": adu.ref_adu(framing, bytes([3, 2, v[2], v[3]]), unit, bytes([st // 256, st % 256])),
+        "full": adu.ref_adu_clean(framing, bytes([3, 2, v[0], v[1]]), unit, tidb),
+        "exception": adu.ref_adu_clean(framing, bytes([0x83, 2]), unit, tidb),
+        "other-unit": adu.ref_adu_clean(framing, bytes([3, 2, v[0], v[1]]), other, tidb),
+        "stale": adu.ref_adu_clean(framing, bytes([3, 2, v[2], v[3]]), unit, bytes([st // 256, st % 256])),
     }
 
 
@@ -59,8 +59,8 @@ def _not_valid(framing, data):
 def raised_in_decode(e):
     tb = e.__traceback__
     while tb is not None:
-        if tb.tb_frame.f_code.co_name == "processIncomingPacket":
-            return True
+        if tb.tb_frame.f_code.co_name in ("processIncomingPacket", "decode_data"):
+            return True              # the two framer entry points execute() hands the received bytes to
         tb = tb.tb_next
     return False
 
@@ -152,7 +152,7 @@ def make_fault(framing, retries, roe, roi, ncalls, gfc=3):
         # recovery: a following transaction over a healthy transport
         cl.faults.clear()
         tid2 = (cl.transaction.tid + 1) % 65536
-        cl.rx = adu.ref_adu(framing, bytes([3, 2, v[2], v[3]]), unit, bytes([tid2 // 256, tid2 % 256]))
+        cl.rx = adu.ref_adu_clean(framing, bytes([3, 2, v[2], v[3]]), unit, bytes([tid2 // 256, tid2 % 256]))
         req2 = F.ReadHoldingRegistersRequest(1, 1)
         req2.unit_id = unit
         try:
@@ -216,7 +216,7 @@ def make_peerclose(framing, retries):
         assume(1 <= u <= 247)
         cl = make_client(framing, rx=b"", retries=retries, retry_on_empty=False, retry_on_invalid=False)
         state = {"pending": b"", "dead_gen": -1, "txn": 1}
-        first = adu.ref_adu(framing, bytes([3, 2, v[0], v[1]]), u, bytes([0, 1]))
+        first = adu.ref_adu_clean(framing, bytes([3, 2, v[0], v[1]]), u, bytes([0, 1]))
         assume(0 <= k < len(first))
         known("KF-client-keeps-dead-connection-after-truncated-reply", k >= {"tcp": 8, "rtu": 2, "ascii": 5, "binary": 3}[framing])
 
@@ -228,7 +228,7 @@ def make_peerclose(framing, retries):
                 state["dead_gen"] = client.closed
             else:
                 tidb = bytes([request[0], request[1]]) if framing == "tcp" else b""
-                state["pending"] = adu.ref_adu(framing, bytes([3, 2, v[2], v[3]]), u, tidb)
+                state["pending"] = adu.ref_adu_clean(framing, bytes([3, 2, v[2], v[3]]), u, tidb)
             return len(request)
 
         def recv_hook(client, size):
@@ -296,7 +296,7 @@ def make_realtcp(glen, eof):
                 if self.closed:
                     raise OSError("send on a closed socket")
                 if self.healthy:
-                    self.pending = self.pending + adu.ref_adu("tcp", bytes([3, 2, v[0], v[1]]), u, bytes([data[0], data[1]]))
+                    self.pending = self.pending + adu.ref_adu_clean("tcp", bytes([3, 2, v[0], v[1]]), u, bytes([data[0], data[1]]))
                 else:
                     self.pending = g
                     self.healthy = True         # only the first reply is garbage
@@ -351,6 +351,58 @@ def make_realtcp(glen, eof):
         finally:
             CS.time.time, CS.select.select, CS.socket.create_connection = old
     return realtcp
+
+
+def make_realserial(method, sizes):
+    """the REAL ModbusSerialClient (its own _send with the receive-buffer clean-up, _recv, connect/close) over a fake
+    serial port: N stale bytes (left by a fault: a late or foreign frame, a noise burst) are waiting when the next
+    request is sent; that transaction over a healthy line must return its own reply. N is enumerated around the sizes
+    of one and two maximum ADUs; unit and values are symbolic."""
+    def realserial(u: int, v: bytes) -> bool:
+        import pymodbus.client.sync as CS
+        import pymodbus.factory as F
+        assume(len(v) == 2)
+        assume(1 <= u <= 247)
+
+        class Port(object):
+            def __init__(self):
+                self.pending = b""
+                self.is_open = True
+
+            @property
+            def in_waiting(self):
+                return len(self.pending)
+
+            def read(self, n):
+                out, self.pending = self.pending[:n], self.pending[n:]
+                return out
+
+            def write(self, data):
+                # the device answers the request it was sent (healthy line)
+                self.pending = self.pending + adu.ref_adu_clean(method, bytes([3, 2, v[0], v[1]]), u)
+                return len(data)
+
+            def close(self):
+                self.is_open = False
+        for n_stale in sizes:
+            cl = CS.ModbusSerialClient(method=method, port="p", timeout=1, baudrate=19200)
+            port = Port()
+            port.pending = bytes([0x11]) * n_stale
+            cl.socket = port
+            req = F.ReadHoldingRegistersRequest(0, 1)
+            req.unit_id = u
+            try:
+                got = cl.execute(req)
+            except Exception as e:
+                explain("%d stale bytes: execute raised %s", n_stale, type(e).__name__)
+                return False
+            if not hasattr(got, "registers") or is_error_object(got):
+                explain("%d stale bytes waiting before the request: the healthy transaction returned %r", n_stale, got)
+                return False
+            if not same(list(got.registers), [v[0] * 256 + v[1]], "reply after %d stale bytes" % n_stale):
+                return False
+        return True
+    return realserial
 
 
 def deadline_tcp(steps: bytes) -> bool:
@@ -420,7 +472,6 @@ def obligations(tier):
             if tier == "quick" and framing == "ascii":
                 continue
             out.append(Obl("retry.%s.after-%s" % (framing, first), make_retry(framing, first), timeout=T, contracts=contracts[framing], lemmas=lem[framing],
-                           whole_finding="KF-retry-on-empty-never-retries" if first == "nothing" else None,
                            bounds="%s client, retries=2 with the matching retry option: first attempt answered by %s, second by the right reply" % (framing, first)))
     for framing in (("tcp",) if tier == "quick" else ("tcp", "rtu")):
         for retries in ((0,) if tier == "quick" else (0, 1)):
@@ -431,6 +482,10 @@ def obligations(tier):
     for glen, eof in (((8, False), (9, True)) if tier == "quick" else ((8, False), (8, True), (9, False), (9, True), (12, False), (7, True))):
         out.append(Obl("realtcp.g%d.%s" % (glen, "eof" if eof else "silence"), make_realtcp(glen, eof), timeout=T,
                        bounds="real ModbusTcpClient (connect, _send, _recv with its select/deadline loop, clock stub advancing 1 s per observation) over a fake socket: the first reply is ANY %d bytes followed by %s; then a healthy server" % (glen, "end-of-stream" if eof else "silence")))
+    for method in (("rtu", "ascii") if tier == "quick" else ("rtu", "ascii", "binary")):
+        sizes = (257,) if (tier == "quick" and method == "rtu") else (0, 1, 255, 256, 257, 513, 600)
+        out.append(Obl("realserial.%s" % method, make_realserial(method, sizes), timeout=T, contracts=contracts[method], lemmas=lem[method],
+                       bounds="real ModbusSerialClient(%s) over a fake serial port: %s stale bytes waiting when the request is sent, healthy device afterwards; unit and register value symbolic" % (method, "/".join(map(str, sizes)))))
     out.append(Obl("deadline.tcp", deadline_tcp, timeout=T,
                    bounds="ModbusTcpClient._recv(8), timeout 4 s, silent socket, clock advancing by timeout/4 + a symbolic extra (12 symbolic steps)"))
     return out
